@@ -13,6 +13,13 @@ JOBS = [
       fuc=["myth_uncond_signal_body"], timeout=900, tiers=("thorough",),
       note="bounded: the waiter registers itself before the call or within 8 polls of the signaller's spin (the spin body is a plain re-read)"),
 ]
+JOBS = list(JOBS) + [
+  Job("c08.signal.no_early_return", TU, "h_uncond_signal_no_early_return", replace=["myth_queue_push/push_any_contract"],
+      replace_calls=["myth_yield_body:verif_yield_sig"],
+      loops={"myth_uncond_signal_body": [dict(loop_id="0", invariants="g_ner_pushed == 0")]}, loop_counts={"myth_uncond_signal_body": 1},
+      safety=[], cbmc=["--no-standard-checks"], fuc=["myth_uncond_signal_body"], timeout=200,
+      note="control flow only: loop contract with inferred frame (any number of polls), safety checks off, push accepted with any arguments"),
+]
 # the public API functions are one-line forwarders to the bodies under contract: checked mechanically (DESIGN §3.5b)
 from units.common_forward import forward_job
 JOBS = list(JOBS) + [forward_job("c08")]
@@ -26,6 +33,6 @@ META = {
    "exactly one waiter and one signaller per use (the documented usage)",
    "context switch primitives replaced by control-flow stubs (verif_ctx.h)",
    "the waiter does not resume without a signal: only run-queue entries are resumed (scheduler fact, C02)",
-   "the signaller's spin for a late waiter: waiter arrives within 3 polls (bounded); termination in general is liveness",
+   "the signaller's spin for a late waiter: the data obligations (which thread is handed over, bound to which worker, word cleared first) are checked with the waiter arriving within 3 polls (bounded; thorough tier 8); that signal never RETURNS without having handed a waiter over is proved for any number of polls by job c08.signal.no_early_return (loop contract with inferred frame, control flow only: safety checks off and the push accepted with any arguments there); termination of the spin is liveness",
  ],
 }
